@@ -19,7 +19,7 @@ ASSUMPTIONS = [
 ]
 REQUIRED = ["C01:pre-nlv-replayed", "C01:post-nlv-replayed", "C01:nlv-identity", "C01:delta-trade", "C01:delta-quote", "C01:context-pre", "C01:context-post",
             "C01:twin-spot-future"]
-REQUIRED_CATS = ["flat-margined-contract-discontinued", "liquidation-quote-exactly-zero", "op:rebalance-refused-then-carry-on"]
+REQUIRED_CATS = ["flat-margined-contract-discontinued", "liquidation-quote-exactly-zero", "op:rebalance-refused-then-carry-on", "valuation-attempted-during-a-feed-gap"]
 REQUIRED_HITS = ["Broker.transact", "Broker.rebalance"]
 
 
